@@ -182,3 +182,292 @@ Ltac use_res1 H :=
   | Ok _ _ = Ok _ _ => inversion H; subst; clear H
   end.
 
+(* ---------------------------------------------------------------------------------------------
+   definitions of the statements *)
+
+Ltac unf :=
+  unfold step_recv_headers, recv_headers_on, recv_headers_core, recv_trailers_core,
+         step_recv_data, recv_data_core, ignore_data, step_recv_reset, step_recv_window_update, step_recv_push_promise,
+         reset_on_recv_stream_err,
+         send_reset_core, enqueue_reset_expiration, schedule_implicit_reset, queue_frame, clear_queue, res1,
+         conn_proto, conn_flow, lib_reset, library_go_away, too_many_data_frames, too_many_resets, too_many_internal_resets in *.
+
+Lemma sset_same {A} k (r : A) l : sget k l = Some r -> sset k r l = l.
+Proof.
+  induction l as [|[k' x] l IH]; cbn [sget sset]; [discriminate|].
+  destruct (k' =? k) eqn:E; intros H.
+  - inversion H; subst. reflexivity.
+  - rewrite IH; auto.
+Qed.
+
+Lemma iget_kget st sid k r : iget st sid = Some (k, r) -> kget st k = Some r.
+Proof.
+  unfold iget. destruct (sget sid (c_ids st)); [|discriminate]. destruct (kget st n) eqn:E; [|discriminate].
+  intros H; inversion H; subst; auto.
+Qed.
+
+Lemma put_same st k r : kget st k = Some r -> put st k r = st.
+Proof. intros H. unfold put. unfold kget in H. rewrite sset_same by auto. destruct st; reflexivity. Qed.
+
+
+Definition result_of (o : list out) : result := match outs_result o with Some r => r | None => ROk end.
+
+Definition is_conn_error (r : result) : bool :=
+  match r with RErr (EGoAway _ c _) => negb (c =? 0) | _ => false end.
+
+(* the state of a stream as the peer can know it, from this endpoint's record *)
+Definition pview (ro : role) (r : srec) : rfc_state * closed_how :=
+  if s_ppush r then (idle, by_end_stream)
+  else if s_popen r && negb (is_server ro) then (idle, by_end_stream)
+  else if is_closed (s_state r) && negb (is_local_error (s_state r)) then (closed, how_of (s_state r))
+  else if s_popen r then (reserved_local, by_end_stream)
+  else (abs (s_state r), how_of (s_state r)).
+
+Definition lenient (ro : role) (r : srec) (t : ftype) : bool :=
+  s_ppush r
+  || is_local_error (s_state r)
+  || (s_popen r && negb (is_server ro) && match t with PUSH_PROMISE => true | _ => false end)
+  || (match s_state r, t with
+      | Idle, _ => true
+      | ReservedLocal, HEADERS => true
+      | ReservedRemote, (WINDOW_UPDATE | PUSH_PROMISE) => true
+      | _, _ => false
+      end).
+
+
+Ltac kill_state r Hv L4 :=
+  destruct (s_state r) as [| | |lo re|p|p|c] eqn:Es;
+  [ | | | destruct lo, re | destruct p | destruct p
+    | destruct c as [|e|e|rs]; [ | destruct e as [es er ei|ed er ei|ek em]; [destruct ei| destruct ei | ]
+                                 | destruct e as [es er ei|ed er ei|ek em]; [destruct ei| destruct ei | ] | ] ];
+  cbn in Hv, L4; try discriminate.
+
+(* record shapes no history produces (DispatchInv proves it): a request still waiting for a concurrency slot has
+   received nothing *)
+Definition wf_rec (ro : role) (r : srec) : bool :=
+  negb (s_popen r && is_recv_streaming (s_state r)).
+
+Fixpoint bad_reset_queued (o : list out) : bool :=
+  match o with
+  | [] => false
+  | OQueue _ (QReset c) :: o' => violation_code c || bad_reset_queued o'
+  | _ :: o' => bad_reset_queued o'
+  end.
+
+(* the endpoint penalises the peer: a connection error, or a stream error with a code that accuses the peer *)
+Definition penalised (o : list out) : bool :=
+  match result_of o with
+  | RErr (EGoAway _ _ _) => true
+  | RErr (EReset _ c Library) => violation_code c
+  | _ => false
+  end || bad_reset_queued o.
+
+(* the observed verdicts that are not the peer's fault *)
+Definition obs_fine (l : label) : bool :=
+  match l with
+  | LRecvHeaders _ eos info o _ => negb (info && eos) && match h_verdict o with HOk => true | _ => false end
+                                   && (h_can_count o || h_quota o)
+  | LRecvData _ _ o => match d_verdict o with DOk => true | _ => false end && d_budget o
+  | LRecvReset _ _ o => r_quota o
+  | LRecvWindowUpdate _ o => negb (w_overflow o)
+  | LRecvPushPromise _ _ o _ => p_valid o
+  | _ => true
+  end.
+
+(* RFC 9113 8.1: where the frame stands in the peer's message *)
+Definition msg_fine (l : label) (s : state) : bool :=
+  match l with
+  | LRecvHeaders _ eos _ _ _ =>
+    match recv_phase s with awaiting => true | body => eos | done => true end
+  | LRecvData _ _ _ => match recv_phase s with awaiting => false | _ => true end
+  | _ => true
+  end.
+
+(* record shapes no history produces (Proofs/DispatchInv.v): no record stays Idle; a stream whose PUSH_PROMISE is still
+   queued, or that waits for a concurrency slot, is one of ours and has received nothing *)
+Definition wf_shape (ro : role) (sid : N) (r : srec) : bool :=
+  match s_state r with Idle => false | _ => true end &&
+  (if s_ppush r then
+     negb (s_popen r) && is_server ro && is_local_init ro sid &&
+     match s_state r with ReservedLocal | HalfClosedRemote Streaming | Closed _ => true | _ => false end
+   else if s_popen r then
+     is_local_init ro sid &&
+     (if is_server ro
+      then match s_state r with HalfClosedRemote Streaming | Closed _ => true | _ => false end
+      else match s_state r with
+           | Open Streaming AwaitingHeaders | HalfClosedLocal AwaitingHeaders | Closed _ => true
+           | _ => false
+           end)
+   else true).
+
+(* 8.4 / 5.1.1: a PUSH_PROMISE is legal from a server to a client that has not disabled push, and promises a fresh
+   even identifier above all earlier ones *)
+Definition conn_fine (st : conn) (l : label) : bool :=
+  match l with
+  | LRecvPushPromise _ p _ _ =>
+    negb (is_server (c_role st)) && c_push_local st && is_server_init p &&
+    match c_recv_next st with Some n => n <=? p | None => false end
+  | _ => true
+  end.
+
+Lemma wf_shape_rec ro sid r : wf_shape ro sid r = true -> wf_rec ro r = true.
+Proof.
+  unfold wf_shape, wf_rec. destruct (s_popen r); [|reflexivity].
+  destruct (s_ppush r); cbn [negb andb]; [rewrite andb_false_r; discriminate|].
+  destruct (s_state r) as [| | |lo re|p|p|c]; try discriminate; cbn; auto;
+    destruct (is_local_init ro sid), (is_server ro); cbn; try discriminate; auto.
+  - destruct lo, re; cbn; try discriminate; auto.
+  - destruct p; cbn; try discriminate; auto.
+Qed.
+
+Definition tolerable (v : verdict) : bool := match v with accept | tolerate => true | _ => false end.
+
+Ltac kill_state2 r Hv Hm Hwf :=
+  destruct (s_state r) as [| | |lo re|p|p|c] eqn:Es;
+  [ | | | destruct lo, re | destruct p | destruct p
+    | destruct c as [|e|e|rs]; [ | destruct e as [es er ei|ed er ei|ek em]; [destruct ei| destruct ei | ]
+                                 | destruct e as [es er ei|ed er ei|ek em]; [destruct ei| destruct ei | ] | ] ];
+  cbn in Hv, Hm, Hwf; try discriminate.
+
+Ltac finish0 :=
+  try reflexivity;
+  try (exfalso; repeat match goal with b : bool |- _ => destruct b end;
+       cbn in *; try congruence;
+       repeat match goal with v : hverdict |- _ => destruct v | v : dverdict |- _ => destruct v end;
+       cbn in *; congruence).
+
+(* ---------------------------------------------------------------------------------------------
+   a received frame changes at most the record of its stream; nothing is handed to the codec *)
+
+Theorem recv_confined st l sid t st' outs :
+  recv_frame l = Some (sid, t) -> step st l = Ok st' outs ->
+  (forall k, k <> touched st l -> kget st' k = kget st k) /\ has_emit outs = false.
+Proof.
+  intros Hl Hs. destruct l; cbn [recv_frame] in Hl; try discriminate; inversion Hl; subst; clear Hl;
+    cbn [step touched] in *.
+  - (* HEADERS *)
+    unfold step_recv_headers in Hs.
+    destruct (sid =? 0); [discriminate|].
+    destruct (c_recv_max st <? sid); [use_res1 Hs; split; auto|].
+    destruct (iget st sid) as [[k r]|] eqn:Ei.
+    + unf. cbn [s_popen s_state set_state] in Hs. peel Hs; use_res1 Hs;
+        (split; [intros; try apply kget_put_other; auto | reflexivity]).
+    + destruct (negb (is_server (c_role st)) && may_have_forgotten st sid); [use_res1 Hs; split; auto|].
+      pose proof (recv_open_id_slab st sid false (h_can_open o)) as Ho.
+      destruct (recv_open_id st sid false (h_can_open o)) as [e|st1|st1|]; try discriminate.
+      * use_res1 Hs; split; auto.
+      * use_res1 Hs; destruct Ho as (Hsl & _). split; auto. intros; unfold kget; rewrite Hsl; auto.
+      * destruct Ho as (Hsl & Hid & _). destruct (kget st1 nk) eqn:Ek; [discriminate|].
+        unf. cbn [s_popen s_state set_state new_rec] in Hs. peel Hs; use_res1 Hs;
+        (split; [intros; rewrite ?kget_put_other by auto; rewrite ?kget_insert_other by auto; unfold kget; rewrite Hsl; auto | reflexivity]).
+  - (* DATA *)
+    unf. destruct (sid =? 0); [discriminate|].
+    destruct (iget st sid) as [[k r]|] eqn:Ei.
+    + peel Hs; use_res1 Hs; (split; [intros; try apply kget_put_other; auto | reflexivity]).
+    + peel Hs; use_res1 Hs; split; auto.
+  - (* RST *)
+    unf. destruct (iget st sid) as [[k r]|] eqn:Ei; peel Hs; use_res1 Hs;
+      (split; [intros; try apply kget_put_other; auto | reflexivity]).
+  - unf. destruct (iget st sid) as [[k r]|] eqn:Ei; peel Hs; use_res1 Hs;
+      (split; [intros; try apply kget_put_other; auto | reflexivity]).
+  - (* PP *)
+    unf. destruct (sid =? 0); [discriminate|].
+    destruct (iget st sid) as [[k r]|] eqn:Ei; [|use_res1 Hs; split; auto].
+    destruct (c_recv_max st <? sid); [use_res1 Hs; split; auto|].
+    destruct (is_local_error (s_state r)); [peel Hs; use_res1 Hs; split; auto|].
+    destruct (ensure_recv_open (s_state r)) as [|b| | | |]; try (use_res1 Hs; split; auto).
+    destruct b; [|use_res1 Hs; split; auto].
+    destruct (negb (c_push_local st)); [use_res1 Hs; split; auto|].
+    pose proof (recv_open_id_slab st promised true (p_can_open o)) as Ho.
+    destruct (recv_open_id st promised true (p_can_open o)) as [e|st1|st1|]; try discriminate.
+    * use_res1 Hs; split; auto.
+    * use_res1 Hs; destruct Ho as (Hsl & _). split; auto. intros; unfold kget; rewrite Hsl; auto.
+    * destruct Ho as (Hsl & Hid & _). destruct (kget st1 nk) eqn:Ek; [discriminate|].
+      cbn [new_rec s_state reserve_remote set_state] in Hs. peel Hs; use_res1 Hs;
+      (split; [intros; rewrite ?kget_insert_other by auto; unfold kget; rewrite Hsl; auto | reflexivity]).
+  - use_res1 Hs. split; auto.
+Qed.
+
+(* ---------------------------------------------------------------------------------------------
+   reaction: where RFC 9113 5.1 demands a connection error *)
+
+Theorem recv_conn_error_required st l sid t k r st' outs :
+  recv_frame l = Some (sid, t) -> iget st sid = Some (k, r) -> c_recv_max st <? sid = false ->
+  wf_shape (c_role st) sid r = true ->
+  receiver_must_for (is_local_init (c_role st) sid) (fst (pview (c_role st) r)) (snd (pview (c_role st) r)) t = conn_error ->
+  lenient (c_role st) r t = false ->
+  step st l = Ok st' outs ->
+  is_conn_error (result_of outs) = true /\ has_app outs = false /\ st' = st.
+Proof.
+  intros Hl Hi Hmax Hwf Hv Hlen Hs. apply wf_shape_rec in Hwf. unfold wf_rec in Hwf.
+  unfold lenient in Hlen. apply orb_false_iff in Hlen. destruct Hlen as [Hlen L4].
+  apply orb_false_iff in Hlen. destruct Hlen as [Hlen L3].
+  apply orb_false_iff in Hlen. destruct Hlen as [L1 L2].
+  unfold pview in Hv. rewrite L1, L2 in Hv. rewrite andb_true_r in Hv.
+  destruct l; cbn [recv_frame] in Hl; try discriminate; inversion Hl; subst; clear Hl; cbn [step] in Hs;
+    unf; unfold recv_open_id in Hs; rewrite ?Hi, ?Hmax, ?L2 in Hs;
+    (destruct (sid =? 0); [try discriminate|]);
+    try (use_res1 Hs; cbn; auto; fail);
+    destruct (is_server (c_role st)) eqn:Er; destruct (s_popen r) eqn:Ep;
+    kill_state r Hv L4; cbn in Hs, L2, L3, Hwf, Hv; try discriminate;
+    try (destruct (is_local_init _ sid); discriminate);
+    peel Hs; try (use_res1 Hs); rewrite ?(put_same st k r) by (eapply iget_kget; eauto); cbn; auto.
+Qed.
+
+(* T2: a frame on an identifier that was never used *)
+Theorem recv_idle_conn_error st l sid t st' outs :
+  recv_frame l = Some (sid, t) -> iget st sid = None -> not_idle st sid = false ->
+  c_recv_max st <? sid = false -> t <> PRIORITY ->
+  (t = HEADERS -> is_local_init (c_role st) sid = true) ->
+  step st l = Ok st' outs ->
+  is_conn_error (result_of outs) = true /\ has_app outs = false /\ st' = st.
+Proof.
+  intros Hl Hi Hidle Hmax Hp Hh Hs.
+  assert (Hf : sid <> 0 -> may_have_forgotten st sid = false).
+  { intros Hz. unfold may_have_forgotten, not_idle in *. destruct (sid =? 0); auto. }
+  destruct l; cbn [recv_frame] in Hl; try discriminate; inversion Hl; subst; clear Hl; cbn [step] in Hs;
+    unf; rewrite ?Hi, ?Hmax, ?Hidle in Hs; try congruence;
+    (destruct (sid =? 0) eqn:Ez; [try discriminate|apply N.eqb_neq in Ez; rewrite ?(Hf Ez) in Hs]);
+    try (use_res1 Hs; cbn; auto; fail).
+  (* HEADERS on an identifier of ours *)
+  specialize (Hh eq_refl). rewrite andb_false_r in Hs.
+  unfold recv_open_id in Hs. unfold is_local_init in Hh.
+  destruct (c_refused st); [discriminate|].
+  destruct (is_server (c_role st)) eqn:Er; cbn in Hh, Hs.
+  - assert (Hc : is_client_init sid = false).
+    { unfold is_client_init, is_server_init in *. destruct (sid =? 0); cbn in *; try discriminate.
+      destruct (sid mod 2 =? 0) eqn:E0; try discriminate. apply N.eqb_eq in E0. rewrite E0. reflexivity. }
+    rewrite Hc in Hs. cbn in Hs. use_res1 Hs. cbn; auto.
+  - use_res1 Hs. cbn; auto.
+Qed.
+
+(* an error that blames the frame (everything but the DATA-frame budget, which is charged after the frame was taken) *)
+Definition blames (r : result) : bool :=
+  match r with
+  | RErr (EGoAway d _ _) => negb (list_N_eqb d TOO_MANY_DATA_FRAMES)
+  | RErr _ => true
+  | _ => false
+  end.
+
+Ltac leaf :=
+  match goal with
+  | |- _ -> _ => let H := fresh in intros H; vm_compute in H; vm_compute;
+                 first [ reflexivity | destruct H; discriminate | idtac ]
+  end.
+
+Theorem recv_refused_not_surfaced st l sid t st' outs :
+  recv_frame l = Some (sid, t) -> step st l = Ok st' outs ->
+  blames (result_of outs) = true \/ refused_in outs = true ->
+  has_app outs = false.
+Proof.
+  intros Hl Hs. destruct l; cbn [recv_frame] in Hl; try discriminate; inversion Hl; subst; clear Hl; cbn [step] in Hs.
+  - unf. unfold recv_open_id in Hs. cbn [new_rec s_popen s_state] in Hs.
+    peel Hs; try (use_res1 Hs); unfold result_of; leaf.
+  - unf. peel Hs; try (use_res1 Hs); unfold result_of; leaf.
+  - unf. peel Hs; try (use_res1 Hs); unfold result_of; leaf.
+  - unf. peel Hs; try (use_res1 Hs); unfold result_of; leaf.
+  - unf. unfold recv_open_id in Hs. cbn [new_rec s_state reserve_remote] in Hs.
+    peel Hs; try (use_res1 Hs); unfold result_of; leaf.
+  - use_res1 Hs. intros; reflexivity.
+Qed.
+
